@@ -6,6 +6,7 @@ Everything printed is computed by the definitions the theorems are about.
 import Cntgs.World
 import Cntgs.Compare
 import Cntgs.Emplace
+import Cntgs.RefIter
 namespace Cntgs.Driver
 open Cntgs
 
@@ -98,6 +99,23 @@ def vidx (s : String) : Nat := (s.drop 1).toString.toNat!
 structure St where
   ps : List Param := []
   w : World := {}
+  elems : Nat → Option ElemSt := fun _ => none
+
+def St.ew (st : St) : EWorld := { w := st.w, elems := st.elems }
+
+def dumpElem (ps : List Param) (k : Nat) (oe : Option ElemSt) : String :=
+  match oe with
+  | none => s!"e{k} none"
+  | some e =>
+    let head := s!"e{k} units={e.ptr.units} blk={optNat e.ptr.blk} alloc={e.ptr.alloc}"
+    if e.ptr.blk.isNone then head else
+    let pl := place ps (elemCounts e.val) 0
+    head ++ " |" ++ String.join ((List.zip pl e.val).map (fun ((s, t), vals) => s!" {s}..{t}[{joinNat vals}]"))
+
+/-- apply a permutation of the stored values (algorithms over iterators exchange values, not storage) -/
+def permuteVec (v : Vec) (new : List Elem) : Vec :=
+  (List.zip (List.range new.length) new).foldl (fun (w : Vec) (ie : Nat × Elem) => w.setElem ie.1 ie.2) v
+
 
 def ledgerLine (h0 h1 : Heap) : String := s!"ledger +{h1.nAlloc - h0.nAlloc} -{h1.nDealloc - h0.nDealloc}"
 
@@ -201,12 +219,111 @@ def step (st : St) (line : String) : St × List String :=
       let src := if mv then xs.map (fun _ => 0) else xs
       (st, [s!"emp mc={b2s (memcpyCompatible t u)} hds={b2s (f.isRange && f.hasDataAndSize)} ci={b2s (!f.isRange && f.contiguousIterator)} stored={joinNat st'} src={joinNat src} copies={if cp then xs.length else 0} moves={if mv then xs.length else 0}"])
     | _, _, _ => (st, ["bad-op emp"])
+  | [op, s, j, d, i] =>
+    if op == "refassign" || op == "refassignc" || op == "refmove" then
+      let (si, di, j, i) := (vidx s, vidx d, j.toNat!, i.toNat!)
+      match (w.vecs si).bind (·.get j), (w.vecs di).bind (·.get i) with
+      | some es, some ed =>
+        if si == di && i == j then fin { w with threw := false } [dumpVec si (w.vecs si)] else
+        let r := refAssign st.ps (op == "refmove") es ed
+        let w1 := w.upd di (·.setElem i r.2)
+        let w2 := if op == "refmove" then w1.upd si (·.setElem j r.1) else w1
+        fin w2 ([dumpVec si (w2.vecs si)] ++ (if si ≠ di then [dumpVec di (w2.vecs di)] else []))
+      | _, _ => (st, ["bad-op refassign"])
+    else if op == "refswap" || op == "iterswap" then
+      let (ai, bi, i, j) := (vidx s, vidx d, j.toNat!, i.toNat!)
+      match (w.vecs ai).bind (·.get i), (w.vecs bi).bind (·.get j) with
+      | some ea, some eb =>
+        if ai == bi && i == j then fin { w with threw := false } [dumpVec ai (w.vecs ai)] else
+        let r := refSwap st.ps ea eb
+        let w2 := (w.upd ai (·.setElem i r.1)).upd bi (·.setElem j r.2)
+        fin w2 ([dumpVec ai (w2.vecs ai)] ++ (if ai ≠ bi then [dumpVec bi (w2.vecs bi)] else []))
+      | _, _ => (st, ["bad-op refswap"])
+    else if op == "elem" || op == "elemref" || op == "elemmv" then
+      let (k, si, idx, al) := (vidx s, vidx j, d.toNat!, i.toNat!)
+      let ew := (st.ew.elemDestroy st.ps k).elemFromRef st.ps k si idx al (op == "elemmv")
+      let (st2, outs) := fin ew.w [dumpElem st.ps k (ew.elems k), dumpVec si (ew.w.vecs si)]
+      ({ st2 with elems := ew.elems }, outs)
+    else (st, [s!"bad-op {op}"])
+  | ["rotate", v, k] =>
+    let vi := vidx v
+    match w.vecs vi with
+    | some vv =>
+      let es := vv.abs.map (·.getD [])
+      let w' := w.upd vi (fun x => permuteVec x (es.drop k.toNat! ++ es.take k.toNat!))
+      fin w' [dumpVec vi (w'.vecs vi)]
+    | none => (st, ["bad-op rotate"])
+  | ["reverse", v] =>
+    let vi := vidx v
+    match w.vecs vi with
+    | some vv =>
+      let es := vv.abs.map (·.getD [])
+      let w' := w.upd vi (fun x => permuteVec x es.reverse)
+      fin w' [dumpVec vi (w'.vecs vi)]
+    | none => (st, ["bad-op reverse"])
+  | ["swapranges", a, b, n] =>
+    let (ai, bi, n) := (vidx a, vidx b, n.toNat!)
+    match w.vecs ai, w.vecs bi with
+    | some va, some vb =>
+      let ea := va.abs.map (·.getD []); let eb := vb.abs.map (·.getD [])
+      let w' := (w.upd ai (fun x => permuteVec x (eb.take n ++ ea.drop n))).upd bi (fun x => permuteVec x (ea.take n ++ eb.drop n))
+      fin w' [dumpVec ai (w'.vecs ai), dumpVec bi (w'.vecs bi)]
+    | _, _ => (st, ["bad-op swapranges"])
+  | ["iter", v] =>
+    match w.vecs (vidx v) with
+    | some vv => (st, [s!"iter n={vv.size} pairs={(vv.size + 1) * (vv.size + 1)}"])
+    | none => (st, ["bad-op iter"])
+  | [op, a, b] =>
+    let (ai, bi) := (vidx a, vidx b)
+    let finE (ew : EWorld) (outs : List String) : St × List String :=
+      let (st2, o) := fin ew.w outs
+      ({ st2 with elems := ew.elems }, o)
+    if op == "elemcopy" then
+      let ew := (st.ew.elemDestroy st.ps bi).elemCopy st.ps ai bi
+      finE ew [dumpElem st.ps ai (ew.elems ai), dumpElem st.ps bi (ew.elems bi)]
+    else if op == "elemmove" then
+      let ew := (st.ew.elemDestroy st.ps bi).elemMove ai bi
+      finE ew [dumpElem st.ps ai (ew.elems ai), dumpElem st.ps bi (ew.elems bi)]
+    else if op == "elemassign" then
+      let ew := st.ew.elemAssign st.ps ai bi
+      finE ew ([dumpElem st.ps ai (ew.elems ai)] ++ (if ai ≠ bi then [dumpElem st.ps bi (ew.elems bi)] else []))
+    else if op == "elemmassign" then
+      let ew := st.ew.elemMoveAssign st.ps ai bi
+      finE ew ([dumpElem st.ps ai (ew.elems ai)] ++ (if ai ≠ bi then [dumpElem st.ps bi (ew.elems bi)] else []))
+    else if op == "elemswap" then
+      let ew := st.ew.elemSwap ai bi
+      finE ew ([dumpElem st.ps ai (ew.elems ai)] ++ (if ai ≠ bi then [dumpElem st.ps bi (ew.elems bi)] else []))
+    else (st, [s!"bad-op {op}"])
+  | [op, e, v, i] =>
+    let (k, vi, i) := (vidx e, vidx v, i.toNat!)
+    match st.elems k, (w.vecs vi).bind (·.get i) with
+    | some el, some ev =>
+      if op == "elemtoref" || op == "elemtorefm" then
+        let r := refAssign st.ps (op == "elemtorefm") el.val ev
+        let w' := w.upd vi (·.setElem i r.2)
+        let el' := if op == "elemtorefm" then { el with val := r.1 } else el
+        let (st2, o) := fin w' [dumpElem st.ps k (some el'), dumpVec vi (w'.vecs vi)]
+        ({ st2 with elems := fun x => if x = k then some el' else st.elems x }, o)
+      else if op == "elemfromref" || op == "elemfromrefm" then
+        let r := refAssign st.ps (op == "elemfromrefm") ev el.val
+        let w' := if op == "elemfromrefm" then w.upd vi (·.setElem i r.1) else { w with threw := false }
+        let el' := { el with val := r.2 }
+        let (st2, o) := fin w' [dumpElem st.ps k (some el'), dumpVec vi (w'.vecs vi)]
+        ({ st2 with elems := fun x => if x = k then some el' else st.elems x }, o)
+      else (st, [s!"bad-op {op}"])
+    | _, _ => (st, [s!"bad-op {op}"])
+  | ["elemdump", e] => fin { w with threw := false } [dumpElem st.ps (vidx e) (st.elems (vidx e))]
+  | ["elemdestroy", e] =>
+    let ew := st.ew.elemDestroy st.ps (vidx e)
+    let (st2, o) := fin ew.w [s!"e{vidx e} none"]
+    ({ st2 with elems := ew.elems }, o)
   | ["destroy", v] =>
     let k := vidx v
     let w' := w.destroy k
     fin w' [s!"v{k} none"]
   | ["end"] =>
-    let w' := (List.range 8).foldl (fun w k => w.destroy k) w
+    let ew := (List.range 8).foldl (fun (ew : EWorld) k => ew.elemDestroy st.ps k) st.ew
+    let w' := (List.range 8).foldl (fun w k => w.destroy k) ew.w
     let liveB := (w'.heap.live.map (·.serial)).reverse
     fin w' [s!"end live_blocks={joinNat liveB} live_objects=0"]
   | t :: _ => (st, [s!"bad-op {t}"])
